@@ -159,3 +159,33 @@ Proof.
   unfold spec_its. rewrite Ei. destruct (i_explicit inp) eqn:Ex; [|reflexivity].
   specialize (Hi eq_refl). unfold spec_its in Hi. rewrite Ei, Ex in Hi. exact Hi.
 Qed.
+
+(** * the implicit-template mode (the explicit-hydrogen stage is off) *)
+Lemma no_explicit_nocrash inp : i_explicit inp = false -> nocrash inp.
+Proof. intros H C. congruence. Qed.
+
+(** the implicit-template mode (explicit_h is off), TOTAL, forwards and backwards *)
+Theorem implicit_reactor_total (invert : bool) inp tpl :
+  i_explicit inp = false ->
+  i_rule inp = synrule (if invert then invert_template tpl else tpl) false ->
+  wf_rcb tpl = true -> edges_closedb tpl = true ->
+  wf_hostb (i_host inp) = true ->
+  forallb (call_okm (i_host inp) (fst (its_decompose (if invert then invert_template tpl else tpl)))) (i_calls inp) = true ->
+  nocrash inp /\
+  (forall ops, run_ops inp rs0 ops = map (spec_val inp) ops) /\
+  (exists gs, spec_its inp = Some gs) /\
+  (forall gs g, spec_its inp = Some gs -> In g gs ->
+     instance_of (i_host inp) (if invert then invert_template tpl else tpl) g /\
+     (balancedb tpl = true ->
+        (forall e, elem_count e (fst (its_decompose g)) = elem_count e (snd (its_decompose g))) /\
+        total_charge (fst (its_decompose g)) = total_charge (snd (its_decompose g)))).
+Proof.
+  intros Ex Ei Hw Hc Hwh Hcalls. pose proof (no_explicit_nocrash inp Ex) as Hnc.
+  split; [exact Hnc|]. split; [intros ops; exact (reads_stable inp ops Hnc)|]. split.
+  - set (tpl' := if invert then invert_template tpl else tpl) in *.
+    assert (Hw' : wf_rcb tpl' = true) by (unfold tpl'; destruct invert; [apply invert_wf|]; exact Hw).
+    assert (Hnd : nodupb (node_ids tpl') = true).
+    { unfold wf_rcb in Hw'. apply andb_prop in Hw'. destruct Hw' as [X _]. apply andb_prop in X. exact (proj1 X). }
+    rewrite (synrule_implicit tpl' Hnd) in Ei. unfold spec_its. rewrite Ei, Ex. eauto.
+  - intros gs g Hits Ig. exact (its_list_implicit_end_to_end invert inp tpl gs Ei Hw Hc Hwh Hcalls Hits g Ig).
+Qed.
